@@ -93,8 +93,9 @@ def check(run: Run) -> None:
         incs = [n for n in ast.walk(lp) if isinstance(n, ast.AugAssign) and isinstance(n.target, ast.Name) and n.target.id == idx_name]
         enum_idx = isinstance(lp.iter, ast.Call) and isinstance(lp.iter.func, ast.Name) and lp.iter.func.id == "enumerate" and isinstance(lp.target, ast.Tuple) and isinstance(lp.target.elts[0], ast.Name) and lp.target.elts[0].id == idx_name
         if enum_idx:
-            inner = ast.unparse(lp.iter.args[0])
-            filt = "self" in inner
+            it_all = strip_sites(fa.term_of(lp.iter.args[0], cfg.node_of(lp)))
+            # the enumerated sequence excludes the parameter called "self": a filter condition name != "self" on it
+            filt = contains(it_all, lambda s_: s_[0] == "op" and s_[1] in ("Compare:NotEq",) and ("const", "self") in s_[2] and any(x[0] == "attr" and x[2] == "name" for x in s_[2] if isinstance(x, tuple)))
             run.check(filt, "C07.R1", fd, lp, "enumerate runs over the non-self parameters", "slot index comes from enumerate over all parameters including self: off by one for methods")
         else:
             ok_inc = len(incs) >= 1 and all(isinstance(i_.op, ast.Add) and isinstance(i_.value, ast.Constant) and i_.value.value == 1 for i_ in incs)
@@ -218,6 +219,8 @@ def check(run: Run) -> None:
             if fpar is not None and inv is not None:
                 fpar = inv.get(("param", fpar), (None, None))[1]
             it = strip_sites(faL.term_of(lp.iter, faL.cfg.node_of(lp)))
+            if it[0] == "app" and it[1] == ("global", "builtins.enumerate") and len(it[2]) == 1:
+                it = it[2][0]
             honoured = fpar is not None and (any(a == ("list", ()) for a in unphi_terms(it)) or it[0] == "ifexp") and contains(it, lambda s: s == ("param", fpar)) or (fpar is not None and any(isinstance(a, ast.Name) and a.id == fpar and pol for a, pol in Facts(faL, lp).atoms))
             # ifexp(flag, params, [])
             if it[0] == "ifexp":
@@ -289,6 +292,15 @@ def _check_find_keyword(run: Run, m, mod: str) -> None:
         found += 1
         fx = Facts(fa, s)
         ok_match = any(pol and isinstance(a, ast.Compare) and isinstance(a.ops[0], ast.Eq) and {ast.unparse(a.left).split(".")[-1], ast.unparse(a.comparators[0]).split(".")[-1]} >= {"arg"} and name in (strip_sites(fa.term_of(a.left)), strip_sites(fa.term_of(a.comparators[0]))) for a, pol in fx.atoms)
+        if not ok_match and val[0] == "attr":
+            # found = next((k for k in keywords if k.arg == name), None): the first keyword satisfying the condition
+            sel = val[1]
+            if sel[0] == "app" and sel[1] == ("global", "builtins.next") and len(sel[2]) == 2 and sel[2][1] == ("const", None):
+                g = sel[2][0]
+                if g[0] == "comp" and g[1] in ("GeneratorExp", "ListComp") and g[2] == ("elem", kws) and len(g[3]) == 1 and g[3][0][0] == kws and len(g[3][0][1]) == 1:
+                    c_ = g[3][0][1][0]
+                    arg_t = ("attr", ("elem", kws), "arg")
+                    ok_match = c_[0] == "op" and c_[1] == "Compare:Eq" and set(c_[2]) == {arg_t, name} and fx.compare_const(sel, [ast.IsNot], None)
         run.check(ok_match, "C07.R2", fk, s, "value returned for the keyword whose arg equals the name", "the returned value is not selected by kw.arg == name")
         run.check(val[0] == "attr" and val[2] == "value", "C07.R2", fk, s, "returns the keyword's value", f"returns {show(val)[:60]}")
         # the remainder: all keywords but the matched one
